@@ -1,10 +1,82 @@
 (* C11 -- MS-GKDI structures and GetKey stubs have exactly the specified byte layout.
-   Statements only; proofs in Proofs/Gkdi*.v. *)
+   Statements only; proofs in Proofs/Gkdi*.v.  Model: Model/KeyId.v, Model/Gkdi.v (after
+   _blob.KeyIdentifier, _gkdi.py, _client._process_get_key_result); independent encoders:
+   Spec/GkdiLayout.v (field tables from MS-GKDI 2.2.1-2.2.4, NDR64 stubs of GetKey). *)
 From V Require Import Prelude.Base Prelude.PyInt Prelude.PySlice Prelude.PyStr.
-From V Require Import Model.Types Model.KeyId Model.Gkdi Model.GkdiView Spec.GkdiLayout.
-From V Require Import Proofs.GkdiLib Proofs.GkdiKeyId.
+From V Require Import gen.K_gkdi Model.Types Model.KeyId Model.Gkdi Model.GkdiView Spec.GkdiLayout.
+From V Require Import Proofs.GkdiLib Proofs.GkdiKeyId Proofs.GkdiEnvelope Proofs.GkdiGetKey.
 
+(* ---- round trips ---- *)
 Theorem C11_roundtrip_KeyIdentifier : forall k, wf_kid k = true ->
   exists b, KeyIdentifier_pack k = Ok b /\ KeyIdentifier_unpack b = Ok k.
 Proof. exact KeyIdentifier_roundtrip. Qed.
 Print Assumptions C11_roundtrip_KeyIdentifier.
+
+Theorem C11_roundtrip_GroupKeyEnvelope : forall e, wf_env e = true ->
+  exists b, GroupKeyEnvelope_pack e = Ok b /\ GroupKeyEnvelope_unpack b = Ok e.
+Proof. exact GroupKeyEnvelope_roundtrip. Qed.
+Print Assumptions C11_roundtrip_GroupKeyEnvelope.
+
+Theorem C11_getkey_roundtrip : forall g, wf_getkey g = true ->
+  exists b, GetKey_pack g = Ok b /\ GetKey_unpack b = Ok g.
+Proof. exact GetKey_roundtrip. Qed.
+Print Assumptions C11_getkey_roundtrip.
+
+(* ---- GetKey request stub = NDR64 encoding of the arguments, for every SD length (every
+   residue mod 8) and a null / non-null root key pointer ---- *)
+Theorem C11_getkey_ndr64 : forall g, wf_getkey g = true ->
+  exists b, GetKey_pack g = Ok b /\
+            ndr64_getkey_request (gk_target_sd g) (gk_root_key_id g) (gk_l0 g) (gk_l1 g) (gk_l2 g) = Some b.
+Proof. exact GetKey_pack_eq_ndr64. Qed.
+Print Assumptions C11_getkey_ndr64.
+
+(* the padding kernel regenerated from GetKey.unpack aligns the pointer to 8 *)
+Theorem C11_kernel_unpack_pad : forall n, 0 <= k_getkey_unpack_pad n < 8 /\ (n + k_getkey_unpack_pad n) mod 8 = 0.
+Proof. exact k_getkey_unpack_pad_spec. Qed.
+Print Assumptions C11_kernel_unpack_pad.
+
+(* ---- reply: the decoder extracts the envelope bytes from the NDR64 reply for every length ---- *)
+Theorem C11_reply : forall out b, u32b (len out) = true -> ndr64_getkey_reply out 0 = Some b ->
+  GetKey_unpack_response b = GroupKeyEnvelope_unpack out.
+Proof. exact unpack_response_ndr64. Qed.
+Print Assumptions C11_reply.
+
+Theorem C11_reply_encodable : forall out h, u32b (len out) = true -> u32b h = true ->
+  exists b, ndr64_getkey_reply out h = Some b.
+Proof. exact ndr64_getkey_reply_total. Qed.
+Print Assumptions C11_reply_encodable.
+
+Theorem C11_reply_hresult : forall out h b, u32b (len out) = true -> u32b h = true -> h <> 0 ->
+  ndr64_getkey_reply out h = Some b -> GetKey_unpack_response b = Raise ValueError.
+Proof. exact unpack_response_failure. Qed.
+Print Assumptions C11_reply_hresult.
+
+Theorem C11_reply_hresult_nobuffer : forall h b, u32b h = true -> h <> 0 ->
+  ndr64_getkey_reply_fail h = Some b -> GetKey_unpack_response b = Raise ValueError.
+Proof. exact unpack_response_reply_fail. Qed.
+Print Assumptions C11_reply_hresult_nobuffer.
+
+Theorem C11_reply_hresult_any : forall data, le_val (slice (Some (-4)) None data) <> 0 ->
+  GetKey_unpack_response data = Raise ValueError.
+Proof. exact unpack_response_hresult. Qed.
+Print Assumptions C11_reply_hresult_any.
+
+(* ---- auth padding (sec_trailer.pad_length bytes) is stripped before decoding ---- *)
+Theorem C11_strip_pad : forall stub pad,
+  process_get_key_result (stub ++ pad) (Some (len pad)) = GetKey_unpack_response stub.
+Proof. exact strip_pad. Qed.
+Print Assumptions C11_strip_pad.
+
+Theorem C11_strip_none : forall stub, process_get_key_result stub None = GetKey_unpack_response stub.
+Proof. exact no_trailer_no_strip. Qed.
+Print Assumptions C11_strip_none.
+
+(* hypotheses are satisfiable by non-trivial values *)
+Example C11_wf_kid_example :
+  wf_kid {| kid_version := 1; kid_flags := 4294967295; kid_l0 := 361; kid_l1 := 0; kid_l2 := 31;
+            kid_rkid := repeat 7 16; kid_key_info := [1; 2; 3]; kid_domain := [100; 128512]; kid_forest := [] |} = true.
+Proof. exact wf_kid_example. Qed.
+Example C11_wf_env_example : exists e, wf_env e = true /\ gke_domain e = [128512; 0; 97] /\ gke_l0 e = 4294967295.
+Proof. eexists. split; [exact wf_env_example|split; reflexivity]. Qed.
+Example C11_wf_getkey_example : exists g, wf_getkey g = true /\ len (gk_target_sd g) = 5 /\ gk_l2 g = -2147483648.
+Proof. eexists. split; [exact wf_getkey_example|split; reflexivity]. Qed.
